@@ -11,6 +11,7 @@ import H263V.Spec.AnnexJ
 import H263V.Gen.Tables
 import H263V.Model.Show
 import H263V.Spec.GenCases
+import H263V.Spec.GenHeaders
 import H263V.DriverUnits
 
 open H263V H263V.Util H263V.Show H263V.State
@@ -28,11 +29,15 @@ def decOpts (n : Nat) : DecOpts := { sorenson := n % 2 == 1, scalability := (n /
 def mkCur (bytes : Array Nat) : Cur := { bits := bytesToBits bytes.toList, pos := 0 }
 
 def runH (o : Nat) (prevHex hex : String) : String :=
-  match (if prevHex == "-" then some #[] else unhex prevHex), unhex hex with
+  match (if prevHex == "-" || prevHex.startsWith "o" then some #[] else unhex prevHex), unhex hex with
   | some pb, some b =>
     let d := decOpts o
     let prev : Option PicHdr :=
       if prevHex == "-" then none else
+      if prevHex.startsWith "o" then
+        some { version := none, tr := 0, format := none, options := (prevHex.drop 1).toString.toNat!, hasPlusptype := true, hasOpptype := false,
+               picType := .pFrame, mvRange := none, sliceSubmode := none, layer := none, rpsMode := none, predictionRef := none,
+               quantizer := 1, multiplex := none, pbReference := none, pbQuantizer := none, extra := [] } else
       match Header.decodePicture d none (mkCur pb) with
       | .ok (some h, _) => some h
       | _ => none
@@ -202,6 +207,7 @@ def main (args : List String) : IO Unit := do
   let stdout ← IO.getStdout
   match args with
   | ["GEN", kind, seed, count] =>
-    for l in Spec.GenCases.runGen kind seed.toNat! count.toNat! do
+    let ls := if kind.startsWith "headers" then Spec.GenHeaders.run kind seed.toNat! else Spec.GenCases.runGen kind seed.toNat! count.toNat!
+    for l in ls do
       stdout.putStrLn l
   | _ => loop stdin stdout
